@@ -62,9 +62,13 @@ def is_relevant(node):
                     node[2], is_rm_sort):
                 return True
         elif node.get_ident() in ['declare-fun', 'define-fun', 'define-sort']:
+            # parameter sorts (node[2]) and result sort (node[3])
             if len(node) < 4:
                 return False
             if nodes.contains(node[3], is_fp_sort) or nodes.contains(
                     node[3], is_rm_sort):
+                return True
+            if nodes.contains(node[2], is_fp_sort) or nodes.contains(
+                    node[2], is_rm_sort):
                 return True
     return False
